@@ -502,6 +502,50 @@ def ob_beam_theory_switch():
     return Verdict(DISCHARGED, backend="native run vs fresh simulation")
 
 
+def ob_behavior_elastic_change(solver):
+    """the elastic law inside an inelastic behaviour is an object the simulation observes through the behaviour: re-assigning one of its parameters must leave no
+    stale derived data in the behaviour (the spectral return keeps a decomposition of C^1/2 P C^1/2)"""
+    from EasyFEA import Models
+    from EasyFEA.FEM._linalg import FeArray
+    IE = Models.InElastic
+
+    def mk(E, v):
+        el = Models.Elastic.Isotropic(3, E=E, v=v)
+        return IE.Behavior(3, el, yieldSurface=IE.Yield.VonMises(250.0), hardening=IE.IsotropicHardening.Linear(2000.0), solver=solver), el
+    rng = np.random.default_rng(3)
+    eps = np.array([3e-3, -5e-4, -5e-4, 1e-4, -2e-4, 3e-4])[None, None] * rng.uniform(0.2, 2.0, size=(2, 3, 1))
+    b, el = mk(210e3, 0.3)
+    b.Integrate(FeArray.asfearray(eps.copy()))               # whatever is cached is cached now
+    told = []
+
+    from EasyFEA.Utilities._observers import _IObserver
+
+    class Listener(_IObserver):
+        def _Update(self, observable, event):
+            told.append(event)
+    b._Add_observer(Listener())
+    n = 0
+    for name, val in (("E", 70e3), ("v", 0.2), ("E", 150e3)):
+        setattr(el, name, val)
+        fresh, _ = mk(float(el.E), float(el.v))
+        got = b.Integrate(FeArray.asfearray(eps.copy()))
+        want = fresh.Integrate(FeArray.asfearray(eps.copy()))
+        n += 1
+        if not (np.asarray(want[2])[..., 6] > 0).any() or not (np.asarray(want[2])[..., 6] == 0).any():
+            raise Unsupported("the strain states are not a mix of elastic and plastic points")
+        for k, what in ((0, "stress"), (1, "tangent"), (2, "state")):
+            a, w = np.asarray(got[k]), np.asarray(want[k])
+            e = float(np.abs(a - w).max() / (np.abs(w).max() + 1e-300))
+            if e > 1e-9:
+                raise Refuted(f"behaviour (solver={solver}) after elastic.{name} = {val}: the {what} returned by Integrate differs from that of a behaviour built on the new law by {e:.3e} (relative)",
+                              cex=dict(history=["Integrate", f"elastic.{name} = {val}", "Integrate"], solver=solver), signature=f"behavior:elastic:{solver}:{what}", replay=dict(confirmed=True, rel_err=e))
+        if not told:
+            raise Refuted(f"behaviour (solver={solver}): re-assigning elastic.{name} does not notify the observers of the behaviour (a simulation would keep its assembled system)",
+                          cex=dict(history=[f"elastic.{name} = {val}"]), signature=f"behavior:elastic:{solver}:notify", replay=dict(confirmed=True))
+        told.clear()
+    return Verdict(DISCHARGED, backend="native", sub=3 * n)
+
+
 def ob_hyper_fibres():
     """re-assigning the fibre / sheet directions of a Holzapfel-Ogden law (vectors of any length, as the constructor accepts them): energy, stress and tangent at a seeded
     deformation equal those of a law constructed directly with these directions."""
@@ -1319,6 +1363,10 @@ def build(tier, seed):
                   clause="after the mesh is replaced K and F == those of a weak-form simulation constructed on the new mesh", timeout=300))
     obs.append(Ob("C14.history.beam.theory", ob_beam_theory_switch, (), "X", ("EasyFEA/Simulations/_beam.py::Beam.useTimoshenko",), bound="one beam",
                   clause="switching the beam theory of a simulation: K == that of a simulation constructed with that theory (or the switch is refused)", timeout=300))
+    for solver in ("auto", "newton"):
+        obs.append(Ob(f"C14.history.behavior.elastic.{solver}", ob_behavior_elastic_change, (solver,), "X", ("EasyFEA/Models/InElastic/_behavior.py::Behavior.__init__", "EasyFEA/Models/InElastic/_behavior.py::Behavior.Integrate"),
+                      bound="one von Mises / linear hardening behaviour, 6 strain states (elastic and plastic), parameters E and v of its elastic law re-assigned", timeout=300,
+                      clause="after a parameter of the elastic law of an inelastic behaviour is re-assigned, Integrate returns what a behaviour built on the new law returns, and the simulation observing the behaviour is told"))
     obs.append(Ob("C14.history.hyper.fibres", ob_hyper_fibres, (), "X", ("EasyFEA/Models/HyperElastic/_laws.py::HolzapfelOgden", "EasyFEA/Utilities/_params.py::UnitVectorParameter"), bound="one seeded deformation state",
                   clause="re-assigned fibre directions give the law constructed with them (energy, stress, tangent)", timeout=300))
     obs.append(Ob("C14.history.beam.section.timoshenko", ob_beam_section_swap, (True,), "X", ("EasyFEA/Models/Beam/_beam.py::_Beam.section[setter]", "EasyFEA/Models/Beam/_beam.py::_Beam._Get_shear_correction_factor"),
